@@ -36,6 +36,26 @@ def seed_files(rnd, big=False):
     return out
 
 
+BUF = 32768      # the library's internal copy / hash / read block size (BUF_SIZE)
+
+
+def bufedge_chunks(rnd, comp):
+    """data chunks whose STORED sizes sit exactly on, one below and one above the library's 32 KiB block size and its
+    multiples, plus a one-byte chunk; uncompressed, the stored data is a whole number of blocks long"""
+    if comp == 0:
+        return [rand(rnd, n) for n in (BUF, BUF - 1, BUF + 1, 2 * BUF, 1, BUF - 1)]
+    out = []
+    for want in (BUF, BUF - 1, BUF + 1):
+        got = None
+        for n in range(want - 40, want + 1):
+            c = rand(rnd, n)
+            if len(ref.zstd_compress(c, 3, None)) == want:
+                got = c; break
+        out.append(got if got is not None else rand(rnd, want))
+    out.append(text(rnd, 70000)); out.append(rand(rnd, 1))
+    return out
+
+
 def special_files(rnd):
     """valid-looking files with unusual but legal content"""
     out = []
